@@ -112,7 +112,7 @@ func (mem *Mempool) ReceiveTx(tx types.Tx) (err error) {
 	if mem.cache.Exists(tx) {
 		return ErrTxInCache
 	}
-	if mem.config.GetBool("mempool_enable_txs_limits") && mem.txs.Len() > mem.txLimit {
+	if mem.config.GetBool("mempool_enable_txs_limits") && mem.txs.Len() >= mem.txLimit {
 		return errors.New("Too many unsolved TX (rejected)")
 	}
 	if err := mem.checkTxWithFilters(tx); err != nil {
